@@ -99,6 +99,8 @@ type FnCtx struct {
 	indexTerms []string
 	frameMode bool
 	rangeKeys map[int]string
+	rangeVisKeys map[int]string
+	rangeDom0 map[int]string
 	rangeN int
 	mu sync.Mutex
 	addrFacts map[string]bool
@@ -144,6 +146,7 @@ type frame struct {
 	escaping map[*ssa.Alloc]bool
 	names []string
 	rangeInfo map[*ssa.Range][2]string
+	rangeVis  map[*ssa.Range][3]string // visited-set ghost key, key set at the start, key sort
 	siteOrd map[string][]ssa.Instruction
 	aliasLocals map[string]string // recorded name the function no longer has -> current name of that variable
 	aliasParams map[string]int
@@ -423,6 +426,8 @@ func (f *FnCtx) translate() {
 		f.dirtyKey = map[string]bool{}
 		f.knownOld = map[string]bool{}
 		f.rangeKeys = map[int]string{}
+		f.rangeVisKeys = map[int]string{}
+		f.rangeDom0 = map[int]string{}
 		f.rangeN = 0
 		f.i2fArgs, f.f2iArgs = nil, nil
 		f.notes = nil
@@ -446,9 +451,7 @@ func (f *FnCtx) runTop() {
 	for _, p := range fn.Params {
 		v := f.freshVal("p."+p.Name(), p.Type())
 		f.assumeTypeRange(st, v)
-		if v.K == KRef {
-			f.assumeOldRef(st, v)
-		}
+		f.assumeOldRefs(st, v)
 		args = append(args, v)
 	}
 	var fvs []Val
@@ -1988,10 +1991,64 @@ func (f *FnCtx) assumeOldRef(st *bstate, v Val) {
 	f.assume(st, t, "references existing at entry are non-negative (allocations of this call are negative)")
 }
 
+// assumeOldRefs: every reference inside a value received at entry (fields of a struct passed by
+// value included) existed before this call.
+func (f *FnCtx) assumeOldRefs(st *bstate, v Val) {
+	switch v.K {
+	case KRef:
+		f.assumeOldRef(st, v)
+	case KStruct:
+		for _, fv := range v.Fs {
+			f.assumeOldRefs(st, fv)
+		}
+	}
+}
+
 // havocDirty: after a havoc of unknown extent the heap may contain this call's escaped allocations.
 func (f *FnCtx) markHavoc() { f.dirtyAll = true }
 
+// readOnlyCapture: the closure (and closures it creates) only ever loads from the captured cell.
+func readOnlyCapture(fv ssa.Value, depth int) bool {
+	if depth > 4 || fv.Referrers() == nil {
+		return false
+	}
+	for _, r := range *fv.Referrers() {
+		switch u := r.(type) {
+		case *ssa.DebugRef:
+		case *ssa.UnOp:
+			if u.Op != token.MUL {
+				return false
+			}
+		case *ssa.MakeClosure:
+			fn, ok := u.Fn.(*ssa.Function)
+			if !ok {
+				return false
+			}
+			for i, b := range u.Bindings {
+				if b == fv && (i >= len(fn.FreeVars) || !readOnlyCapture(fn.FreeVars[i], depth+1)) {
+					return false
+				}
+			}
+		default:
+			return false
+		}
+	}
+	return true
+}
+
 func closureLeaks(mc *ssa.MakeClosure, cell ssa.Value) bool {
+	// a closure that only reads the cell cannot change it, however the closure is used (go, stored, ...)
+	if fn, ok := mc.Fn.(*ssa.Function); ok {
+		ro := true
+		for i, b := range mc.Bindings {
+			if b == cell && (i >= len(fn.FreeVars) || !readOnlyCapture(fn.FreeVars[i], 0)) {
+				ro = false
+			}
+		}
+		if ro {
+			return false
+		}
+	}
 	refs := mc.Referrers()
 	if refs == nil {
 		return true
